@@ -17,12 +17,15 @@ CONFIG = dict(
                "TableManager, and diffing every output, pending set, Global.selection_deferral(_timer), flag and distributed "
                "NlriChange (with best_changed/any_changed), with the reference checker as oracle on the real observations.",
     level_note="Trusted: Lean kernel; axioms propext/Classical.choice/Quot.sound; hand-written model (checked only by the "
-               "correspondence stream); in harness/daemon/c11.rs the start-up block of `serve` (gr_peers from the peer "
-               "configs, duration default 360 s / 0 = disabled, RestartingDeferral::new, start_deferral_families, install; "
-               "~20 lines, inside the body of `serve`, which owns its Global) is transcribed; the machine outputs are taken "
-               "from a second RestartingDeferral fed the same inputs (the real glue consumes the real ones).  Modelled, not "
-               "verified: the tokio sleep inside the timer task (the expiry handler is called directly), route ranking "
-               "inside a destination (C02).",
+               "correspondence stream).  Two streams.  (1) `(case ...)`: model <-> real glue functions on a real Global / "
+               "TableManager (diffed + oracle); there the start-up block of `serve` is transcribed and the machine outputs "
+               "come from a shadow RestartingDeferral.  (2) `(wire ...)`: the whole daemon started as main.rs starts it "
+               "(config::read_from_file of a generated TOML file -> event::main(conf, false, graceful_restart=true, api)), "
+               "remote speakers over loopback TCP; NOTHING of the daemon is called or read from inside, the selection-"
+               "deferral timer elapses in its real spawned task in real time (2 s); judged by the socket-level reference "
+               "checker Rbgp/Gr/Restarting/Wire.lean ONLY (there is no model of the export path: no correspondence diff "
+               "and no theorem for this stream, impl_only_re).  Modelled, not verified: route ranking inside a "
+               "destination (C02).",
     lean_modules=["Rbgp.Gr.Restarting.Props"],
     theorems=[
         "Rbgp.Gr.Restarting.Props.check_run_ok",
@@ -47,8 +50,9 @@ CONFIG = dict(
     ],
     harness=dict(kind="daemon", test="event::verif_event::c11::verif_main"),
     profiles=["debug"],
+    impl_only_re=r"^\(wire ",
     n_quick=2500, n_thorough=40000, shards=12,
-    nontrivial_re=r"\(complete |\(end ",
+    nontrivial_re=r"\(complete |\(end |\(reach ",
     rule="histories over <= 4 peer addresses (3 configurable helpers + 1 stranger) x 3 families x 4 prefixes: "
          "peer-established with any GR family subset (empty = no GR), End-of-RIB, peer-withdrawn, timer-expired, interleaved "
          "with route insertions / withdrawals / per-peer family drops into the (deferred) tables; in half of the random "
@@ -62,19 +66,30 @@ CONFIG = dict(
          "model: every reachable machine state x every input (configured peers + a stranger, every family subset), each "
          "state driven along a shortest path with routes inserted before (quick: 2 helpers x 2 configured families = 703 "
          "cases; thorough: 3 helpers x 3 families, three more configurations, and random extensions of the shortest "
-         "paths); non-trivial = some family was released; distinct = distinct case line",
+         "paths); plus the socket-level stream: 96 (quick) / 1200 (thorough) `(wire ...)` histories of est / eor / wd / ins / rm "
+         "/ timer over 4 speakers, 3 families; non-trivial = some family was released; distinct = distinct case line",
     expect_tokens=["(complete 0)", "(complete 1)", "(complete 2)", "(end ())", "(end (0", "(end (1", "(end (2", "awaiting", "deferring",
-                   "absent", "(timer (some 360", "(timer (some 7", "(timer none)", "(defer (", " adv)", " chg)"],
+                   "absent", "(timer (some 360", "(timer (some 7", "(timer none)", "(defer (", " adv)", " chg)",
+                   "(open r)", "(open n)", "(reach 0 ", "(reach 1 ", "(reach 2 ", "(unreach ", "(eor 0)", "(eor 1)", "(eor 2)"],
     trusted_base=["model Rbgp/Gr/Restarting/Model.lean of daemon/src/gr.rs RestartingDeferral + Rib.deferring coupling + glue",
-                  "harness/daemon/c11.rs: the start-up block of `serve` (event/mod.rs, `if is_restarting && bgp.is_some()`) is "
-                  "transcribed: `serve` owns its Global and never returns, so the block cannot be called; a wrong duration "
-                  "default or peer set THERE is not detected by this check",
-                  "harness/daemon/c11.rs: the output list shown in an observation comes from a shadow RestartingDeferral fed "
-                  "the same inputs; state, flags, timer handle and changes are read from the real Global / TableManager",
-                  "Rib.deferring is observed by a probe insert/remove on every shard",
-                  "when no loopback connection can be made from 127.0.0.(2+p), `wd` falls back to feeding PeerWithdrawn as the "
-                  "tail of PeerSession::run does"],
-    modelled_not_verified=["the sleep of the selection-deferral timer task: expiry is an explicit event calling the real handler",
+                  "(case) stream, harness/daemon/c11.rs: the start-up block of `serve` is transcribed there (the REAL one runs "
+                  "in every (wire) case: peer set from the neighbor list, duration default / 0 = disabled through "
+                  "stale-routes-time absent / 0 / 2 / 360 in the generated file); the output list shown in an observation "
+                  "comes from a shadow RestartingDeferral fed the same inputs; Rib.deferring is observed by a probe "
+                  "insert/remove on every shard; when no loopback connection can be made from 127.0.0.(2+p), `wd` falls "
+                  "back to feeding PeerWithdrawn as the tail of PeerSession::run does",
+                  "(wire) stream, harness/daemon/c11w.rs: the remote speakers are the harness's (OPEN with MP x3 / AS4 / "
+                  "graceful-restart capability, KEEPALIVE, UPDATE, End-of-RIB frames written; received frames decoded: "
+                  "OPEN R-bit, MP_REACH/MP_UNREACH/NLRI prefixes, End-of-RIB, NOTIFICATION); a step ends when nothing has "
+                  "arrived for 16 scheduler turns; the reference checker Wire.lean is trusted as a reading of the text "
+                  "(hand-checked decide examples for every clause, no model behind it)",
+                  "(wire) stream: a case whose 2 s timer could have fired before the case's `timer` event is reported "
+                  "`(wire-inconclusive timer-race)` and accepted (none in 420 development cases)"],
+    modelled_not_verified=["(case) stream: the sleep of the selection-deferral timer task (expiry is an explicit event calling the real "
+                           "handler); in the (wire) stream the real task sleeps and fires",
+                           "(wire) stream: one origin per prefix, three families on every session, no Add-Path, default policies; "
+                           "what is demanded of the export path is only what the text says (nothing of a held family, each "
+                           "released prefix once to everybody else, End-of-RIB behind it, R-bit while waiting)",
                            "one path per (peer, prefix), no import filtering (C02/C06 cover ranking and filtered paths); next-hop "
                            "validity is per announcing peer (each peer announces with its own next hop)",
                            "gdown: the PeerSession handed to the real finish_session is filled by the harness with what "
@@ -184,6 +199,76 @@ def gen_case(r, sane):
     return "(case (peers%s) (dur %s) (evs%s))" % ((" " + ps) if ps else "", dur, (" " + " ".join(evs)) if evs else "")
 
 
+def gen_wire(r):
+    """a socket-level case: the real daemon started in Restarting mode from a configuration file, remote speakers
+    over TCP.  Only what a remote speaker can do: est (of a speaker that is not up), eor / ins / rm (of one that is),
+    wd, and the timer (then the selection-deferral time is 2 s and elapses in real time).  Every prefix has one
+    origin (prefix n is only ever announced by peer n mod 4)."""
+    peers = []
+    npe = r.weighted([(1, 3), (2, 6), (3, 3), (0, 1)])
+    for i in range(npe):
+        fs = subset(r, range(NF), 1, 2) or [r.below(NF)]
+        peers.append((i, fs))
+    cfgd = dict(peers)
+    with_timer = r.chance(1, 4)
+    dur = "(some 2)" if with_timer else r.pick(["none", "(some 0)", "(some 360)"])
+    n = 2 + r.below(r.pick([4, 7, 10]))
+    evs, up = [], {}
+    timer_done = False
+    since_est = 0
+    # most histories begin with a helper that comes up and announces something, and somebody to tell it to
+    if cfgd and r.chance(3, 4):
+        p = r.pick(list(cfgd.keys()))
+        up[p] = list(cfgd[p])
+        evs.append("(est %d %s)" % (p, fams_str(up[p])))
+        for _ in range(1 + r.below(3)):
+            evs.append("(ins %d %d %d)" % (p, r.pick(cfgd[p]) if r.chance(3, 4) else r.below(NF), p % NX))
+        since_est = len(evs)
+    for _ in range(n):
+        k = r.weighted([("est", 6), ("eor", 6), ("wd", 2), ("ins", 5), ("rm", 1)])
+        if with_timer and not timer_done and up and (since_est >= 5 or r.chance(1, 6)):
+            evs.append("timer"); timer_done = True; continue
+        if k == "est":
+            cands = [p for p in range(NP) if p not in up]
+            if not cands:
+                continue
+            p = r.pick([c for c in cands if c in cfgd] or cands) if r.chance(3, 4) else r.pick(cands)
+            base = cfgd.get(p, [])
+            w = r.below(10)
+            fs = list(base) if w < 6 else (subset(r, base, 1, 2) if w < 8 else (subset(r, range(NF), 1, 2) if w < 9 else []))
+            up[p] = fs
+            evs.append("(est %d %s)" % (p, fams_str(fs)))
+        elif k == "eor":
+            if not up:
+                continue
+            p = r.pick(list(up.keys()))
+            f = r.pick(up[p]) if (up[p] and r.chance(5, 6)) else r.below(NF)
+            evs.append("(eor %d %d)" % (p, f))
+        elif k == "wd":
+            p = r.pick(list(up.keys())) if (up and r.chance(3, 4)) else r.below(NP)
+            up.pop(p, None)
+            evs.append("(wd %d)" % p)
+        elif k == "ins":
+            if not up:
+                continue
+            p = r.pick(list(up.keys()))
+            evs.append("(ins %d %d %d)" % (p, r.below(NF), p % NX))
+        else:
+            if not up:
+                continue
+            p = r.pick(list(up.keys()))
+            evs.append("(rm %d %d %d)" % (p, r.below(NF), p % NX))
+        if up:
+            since_est += 1
+    if with_timer and not timer_done:
+        if up:
+            evs.append("timer")
+        else:
+            dur = "(some 360)"
+    ps = " ".join("(%d %s)" % (p, fams_str(fs)) for p, fs in peers)
+    return "(wire (peers%s) (dur %s) (evs%s))" % ((" " + ps) if ps else "", dur, (" " + " ".join(evs)) if evs else "")
+
+
 def bfs_cases(peers, dur, pre, post):
     """every reachable state of the MODEL machine for this configuration x every input (peers of the
     configuration + one stranger, every family subset), each state reached along a shortest path; computed
@@ -216,4 +301,8 @@ def gen(seed, n, tier):
     target = len(cases) + n
     while len(cases) < target:
         cases.append(gen_case(r, sane=r.chance(4, 5)))
+    # the socket-level stream (judged by the oracle only)
+    rw = Rng(seed * 1000003 + 1111)
+    for _ in range(96 if tier == "quick" else 1200):
+        cases.append(gen_wire(rw))
     return cases
